@@ -94,7 +94,7 @@ PROPS = {
     "C03": dict(
         level="other",
         bounded=_both(_ops("C03"), _mod("pure"), _mod("mcsz3")),
-        lemmas=["CoveredUpTo.snoc", "MCS.bridge", "MCS.bridge2", "XI", "mem.snoc.Int", "mem.nil.Int"],
+        lemmas=["CoveredUpTo.snoc", "MCS.bridge", "MCS.bridge2", "KeySoftN.mono", "XI", "mem.snoc.Int", "mem.nil.Int"],
         trusted=TB + ["TB-z3", "TB-time", "TB-sat"],
         assumed=[
             "RC2: RC2(wcnf).compute() returns None iff no world satisfies the hard clauses, otherwise a model of them (pysat, trusted)",
@@ -119,7 +119,7 @@ PROPS = {
     "C04": dict(
         level="other",
         bounded=_both(_ops("C04"), _mod("lexbias"), _mod("pure"), _mod("mcsz3")),
-        lemmas=["CoveredUpTo.snoc", "MCS.bridge", "MCS.bridge2", "XI", "mem.snoc.Int", "mem.nil.Int"],
+        lemmas=["CoveredUpTo.snoc", "MCS.bridge", "MCS.bridge2", "KeySoftN.mono", "XI", "mem.snoc.Int", "mem.nil.Int"],
         trusted=TB + ["TB-z3", "TB-time", "TB-sat"],
         assumed=[
             "RC2: RC2(wcnf).compute() returns None iff no world satisfies the hard clauses, otherwise a model of them (pysat, trusted)",
@@ -141,7 +141,7 @@ PROPS = {
     "C05": dict(
         level="other",
         bounded=_both(_ops("C05"), _mod("pure")),
-        lemmas=["HoldAll", "SumCong.Eta", "mem.at.Int", "mem.snoc.Int", "mem.nil.Int"],
+        lemmas=["HoldAll", "SumCong.Eta", "mem.at.Int", "mem.snoc.Int", "mem.nil.Int", "KeySoftN.mono", "CoveredUpTo.snoc", "MCS.bridge", "MCS.bridge2"],
         trusted=TB + ["TB-ifml", "TB-sat", "TB-time"],
         assumed=[
             "MCS: minimal_correction_subsets enumerates the inclusion-minimal falsified key sets over the hard clauses' worlds (bounded: modules pure, c15)",
